@@ -359,8 +359,9 @@ func c21Types(thorough bool) []c21Type {
 var c21PayloadClasses = []string{
 	"valid", "empty", "null", "empty_object", "wrong_json_types", "wrong_top_level_type", "swap_id_wrong_type", "swap_id_malformed",
 	"missing_swap_id", "null_swap_id", "truncated_half", "truncated_last_byte", "valid_padded_to_100KiB", "valid_padded_to_100KiB_plus_1",
+	"valid_then_closing_brace", "valid_then_text", "valid_then_nul", "two_json_values",
 }
-var c21PayloadClassesThorough = []string{"valid_padded_to_100KiB_minus_1", "valid_padded_to_1MiB", "binary_garbage", "two_json_values", "null_padded_to_100KiB_plus_1"}
+var c21PayloadClassesThorough = []string{"valid_padded_to_100KiB_minus_1", "valid_padded_to_1MiB", "binary_garbage", "valid_then_truncated_object", "null_padded_to_100KiB_plus_1"}
 
 // c21Why says why the statement demands that the message be ignored ("" = it need not be).
 func c21Why(t c21Type, pc string) string {
@@ -468,6 +469,14 @@ func c21Payload(pc string, valid []byte, id *swap.SwapId) []byte {
 		return []byte("\x00\xff\xfe{\"swap_id\"\x00")
 	case "two_json_values":
 		return append(append([]byte{}, valid...), valid...)
+	case "valid_then_closing_brace":
+		return append(append([]byte{}, valid...), '}')
+	case "valid_then_text":
+		return append(append([]byte{}, valid...), []byte(" trailing text")...)
+	case "valid_then_nul":
+		return append(append([]byte{}, valid...), 0, 0, 0, 0)
+	case "valid_then_truncated_object":
+		return append(append([]byte{}, valid...), valid[:len(valid)/2]...)
 	case "null_padded_to_100KiB_plus_1":
 		return c21Pad([]byte("null"), c21Limit+1)
 	}
@@ -749,12 +758,26 @@ func TestC21(t *testing.T) {
 	rep.Alphabets["send.swap_id"] = []string{"nil pointer", "32×00", "32×11", "32×ff"}
 	rep.Alphabets["protocol_type_table"] = c21Table
 	c21Send(a)
+	// what is SENT later: the retransmitter keeps the encoded payload and sends it again every 10 s while the node
+	// goes on encoding other messages; every copy must still be the payload of that message
+	{
+		_, changed, cov := c23ResendCore(t)
+		for wire, d := range changed {
+			a.viol("send:retransmitted_payload_differs_from_encoded:msg="+wire, d)
+		}
+		if len(changed) == 0 {
+			a.hit("send:retransmitted_copies_identical")
+		}
+		for k, v := range cov {
+			rep.Extra[k] = v
+		}
+	}
 	c21Receive(t, a, thorough)
 	rep.Extra["normalisation_before_comparing_decoded_messages"] = "none: reflect.DeepEqual on the struct values (a nil *SwapId encodes as null and decodes to nil; empty strings stay empty); strings that are not valid UTF-8 are outside the alphabet (JSON cannot carry them) and only counted"
 	rep.States = len(rep.Outcomes)
 	rep.Need = []string{
 		"send:ok:swap_in_request", "send:ok:swap_in_agreement", "send:ok:swap_out_request", "send:ok:swap_out_agreement", "send:ok:opening_tx_broadcasted", "send:ok:cancel", "send:ok:coop_close",
-		"type_table:accepted_protocol_number", "type_table:rejected_other_number",
+		"type_table:accepted_protocol_number", "type_table:rejected_other_number", "send:retransmitted_copies_identical",
 		"recv:wellformed:accepted_changes_swap", "recv:wellformed:exactly_100KiB_accepted", "recv:wellformed:no_change",
 		"recv:ignored:not_peerswap_type:handler_nil", "recv:ignored:oversize:handler_error", "recv:ignored:malformed:handler_error",
 	}
